@@ -35,6 +35,14 @@ type controlSite struct {
 // neutralise parses the file and empties the body of the innermost
 // if-statement / case clause whose condition lies on the given line.
 func neutralise(path string, line int) ([]byte, string, error) {
+	return neutraliseMode(path, line, "body")
+}
+
+// neutraliseMode: mode "body" empties the guard's body (an early exit no longer happens); mode
+// "false" makes the condition false (`(cond) && false`), for guards whose *other* side provides
+// the fact — an else branch, or the code after an if/else-if chain — and for bodies whose
+// removal leaves an import unused.
+func neutraliseMode(path string, line int, mode string) ([]byte, string, error) {
 	fset := token.NewFileSet()
 	f, err := parser.ParseFile(fset, path, nil, parser.ParseComments)
 	if err != nil {
@@ -85,6 +93,16 @@ func neutralise(path string, line int) ([]byte, string, error) {
 		return nil, "", fmt.Errorf("no if/case at %s:%d", path, line)
 	}
 	desc := ""
+	if ifs, isIf := target.(*ast.IfStmt); isIf && mode == "false" {
+		ifs.Cond = &ast.BinaryExpr{X: &ast.ParenExpr{X: ifs.Cond}, Op: token.LAND, Y: ast.NewIdent("false")}
+		var buf bytes.Buffer
+		if err := format.Node(&buf, fset, f); err != nil {
+			return nil, "", err
+		}
+		return buf.Bytes(), "condition made false", nil
+	} else if mode == "false" {
+		return nil, "", fmt.Errorf("not an if statement")
+	}
 	switch x := target.(type) {
 	case *ast.IfStmt:
 		if len(x.Body.List) == 0 {
@@ -162,33 +180,45 @@ func runControls(repo, verif, id string, base *Result) *controlsEvidence {
 			sem <- struct{}{}
 			defer func() { <-sem }()
 			rel, _ := filepath.Rel(repo, s.file)
-			src, desc, err := neutralise(s.file, s.line)
-			if err != nil {
-				outs[i] = outcome{s, "unbuildable", fmt.Sprintf("%s:%d: %v", rel, s.line, err)}
-				return
-			}
-			res := runOne(repo, base.prog.Config, map[string][]byte{s.file: src}, id)
-			for _, o := range res.Obs {
-				if o.Rule == "machinery" && o.Subject == "loader" {
-					outs[i] = outcome{s, "unbuildable", fmt.Sprintf("%s:%d (%s): variant does not type-check", rel, s.line, desc)}
-					return
+			var last outcome
+			for _, mode := range []string{"body", "false"} {
+				src, desc, err := neutraliseMode(s.file, s.line, mode)
+				if err != nil {
+					if last.status == "" {
+						last = outcome{s, "unbuildable", fmt.Sprintf("%s:%d: %v", rel, s.line, err)}
+					}
+					continue
 				}
-			}
-			status := map[string]string{}
-			for _, o := range res.Obs {
-				status[o.Key()] = o.Status
-			}
-			flipped := false
-			for k := range s.keys {
-				if st, ok := status[k]; !ok || st != Discharged {
-					flipped = true
+				res := runOne(repo, base.prog.Config, map[string][]byte{s.file: src}, id)
+				built := true
+				for _, o := range res.Obs {
+					if o.Rule == "machinery" && o.Subject == "loader" {
+						built = false
+					}
 				}
+				if !built {
+					if last.status == "" || last.status == "unbuildable" {
+						last = outcome{s, "unbuildable", fmt.Sprintf("%s:%d (%s): variant does not type-check", rel, s.line, desc)}
+					}
+					continue
+				}
+				status := map[string]string{}
+				for _, o := range res.Obs {
+					status[o.Key()] = o.Status
+				}
+				flipped := false
+				for k := range s.keys {
+					if st, ok := status[k]; !ok || st != Discharged {
+						flipped = true
+					}
+				}
+				if flipped {
+					last = outcome{s, "flipped", fmt.Sprintf("%s:%d (%s)", rel, s.line, desc)}
+					break
+				}
+				last = outcome{s, "redundant", fmt.Sprintf("%s:%d (%s): obligations stay discharged (another guard implies the same fact)", rel, s.line, desc)}
 			}
-			if flipped {
-				outs[i] = outcome{s, "flipped", fmt.Sprintf("%s:%d (%s)", rel, s.line, desc)}
-			} else {
-				outs[i] = outcome{s, "redundant", fmt.Sprintf("%s:%d (%s): obligations stay discharged (another guard implies the same fact)", rel, s.line, desc)}
-			}
+			outs[i] = last
 		}(i, s)
 	}
 	wg.Wait()
